@@ -475,6 +475,61 @@ fn report_failure(model: &mut Model, rep: &mut Report, seen: &mut Seen, m128: bo
     });
 }
 
+/// One selector read again and again, nothing else in between: read, event, read, event, … — a key event
+/// between two reads of the same half-rows shows in the second read.
+fn same_selector(model: &mut Model, rep: &mut Report, m128: bool, hist: &[Ev], sel: u8) {
+    let fails = |model: &mut Model, h: &[Ev]| run_history(model, m128, h, &[sel], &[sel], None);
+    if let Some(d) = run_history(model, m128, hist, &[sel], &[sel], Some(rep)) {
+        // a history that also fails when every selector is read after every event is the business of the
+        // ordinary history layer (which knows the recorded findings); here only what re-reading alone shows
+        if run_history(model, m128, hist, &ALL_SELS, &ALL_SELS, None).is_some() {
+            rep.count("repeat_violations", "re-read history that fails under ordinary reading too");
+            return;
+        }
+        // shrink: shortest failing prefix, then drop single events
+        let mut cur: Vec<Ev> = hist.to_vec();
+        for n in 1..=hist.len() {
+            if matches!(fails(model, &hist[..n]), Some(ref x) if x.kind == d.kind) {
+                cur = hist[..n].to_vec();
+                break;
+            }
+        }
+        let mut i = 0;
+        while i < cur.len() && cur.len() > 1 {
+            let mut cand = cur.clone();
+            cand.remove(i);
+            if matches!(fails(model, &cand), Some(ref x) if x.kind == d.kind) {
+                cur = cand;
+            } else {
+                i += 1;
+            }
+        }
+        let d2 = fails(model, &cur).unwrap_or(d);
+        let key = format!("C17/reread/controls={}", controls_of(&cur).join("+"));
+        if rep.has_key(&key) {
+            rep.count("repeat_violations", key);
+            return;
+        }
+        rep.violation(Violation {
+            kind: d2.kind,
+            key,
+            what: format!(
+                "selector {:02x} read after every event and nothing else, after [{}]: {} reads {} but {} says {}",
+                sel,
+                cur.iter().map(|e| e.line()).collect::<Vec<_>>().join("; "),
+                d2.what,
+                d2.implementation,
+                if d2.kind == Kind::SpecViolated { "the held-set spec" } else { "the Lean model" },
+                d2.expected
+            ),
+            correspondence: "corr.C17.input-history (Model.Input.step/readUla vs Emulator::send_*/read_io)".into(),
+            case: J::obj(vec![("text", J::s(format!("samesel={:02x} {}", sel, case_text(m128, &cur))))]),
+            implementation: d2.implementation.clone(),
+            expected: d2.expected.clone(),
+        });
+    }
+}
+
 fn random_event(rng: &mut Rng, focus: &[Ev]) -> Ev {
     // bias towards a small working set so that overlaps between sources actually occur
     if !focus.is_empty() && rng.chance(3, 5) {
@@ -521,6 +576,16 @@ key bit reads 0, plus distinct joystick/mouse port values"
     let mut seen = Seen { controls: Default::default() };
 
     if let Some(text) = &o.replay {
+        if let Some(rest) = text.strip_prefix("samesel=") {
+            // "samesel=<hex> m128=.. ; events": the same selector is read after every event and nothing else
+            if let Some((sel, case)) = rest.split_once(' ') {
+                let sel = u8::from_str_radix(sel, 16).unwrap_or(0);
+                let (m128, hist) = parse_case(case.trim());
+                rep.sample(J::s(text.clone()));
+                same_selector(&mut model, &mut rep, m128, &hist, sel);
+            }
+            return rep;
+        }
         let (m128, hist) = parse_case(text);
         rep.sample(J::s(case_text(m128, &hist)));
         if let Some(d) = run_history(&mut model, m128, &hist, &ALL_SELS, &ALL_SELS, Some(&mut rep)) {
@@ -592,6 +657,63 @@ key bit reads 0, plus distinct joystick/mouse port values"
             rep.count("paths", "IN A,(C) in the emulated CPU");
             if let Some(d) = compare(&answers[answers.len() - 2..], &obs, Some(&mut rep)) {
                 report_failure(&mut model, &mut rep, &mut seen, m128, &hist, d);
+            }
+        }
+    }
+
+    // 2b. the same selector read after every event, nothing else in between
+    {
+        let mut rng = Rng::new(o.seed ^ 0x5E1);
+        for h in 0..o.n(300, 20_000) {
+            let mut r = rng.fork();
+            let m128 = r.bool();
+            let len = r.range(1, 12) as usize;
+            let focus: Vec<Ev> = (0..r.range(1, 3)).map(|_| random_event(&mut r, &[])).collect();
+            let hist: Vec<Ev> = (0..len).map(|_| random_event(&mut r, &focus)).collect();
+            let sel = match h % 4 {
+                0 => 0x00,
+                1 => !(1u8 << r.below(8)),
+                2 => 0xFE,
+                _ => r.u8(),
+            };
+            rep.count("history_length", "same-selector re-read");
+            same_selector(&mut model, &mut rep, m128, &hist, sel);
+        }
+    }
+
+    // 2c. long one-sided mouse drags: the counters are 8 bits and wrap, however far the mouse has travelled
+    for (dx, dy, n) in [(127u8, 0u8, 300usize), (0x9C, 0xA6, 400), (0x80, 0x7F, 520), (1, 0xFF, 700)] {
+        for m128 in [false, true] {
+            let hist: Vec<Ev> = (0..n).map(|_| Ev::Move(dx, dy)).collect();
+            rep.count("history_length", "long mouse drag");
+            if let Some(d) = run_history(&mut model, m128, &hist, &[], &[0x00], Some(&mut rep)) {
+                rep.count("disagreeing_histories", format!("{:?}", d.kind));
+                // the shortest failing prefix is the replay (the general shrinker would re-run 40 selectors per try)
+                let mut lo = 1usize;
+                let mut hi = n;
+                while lo < hi {
+                    let mid = (lo + hi) / 2;
+                    if run_history(&mut model, m128, &hist[..mid], &[], &[0x00], None).is_some() {
+                        hi = mid;
+                    } else {
+                        lo = mid + 1;
+                    }
+                }
+                let small = &hist[..lo];
+                let d2 = run_history(&mut model, m128, small, &[], &[0x00], None).unwrap_or(d);
+                rep.violation(Violation {
+                    kind: d2.kind,
+                    key: "C17/mouse/long-drag".into(),
+                    what: format!(
+                        "after {} mouse movements of ({}, {}): {} reads {} but {} says {}",
+                        lo, dx as i8, dy as i8, d2.what, d2.implementation,
+                        if d2.kind == Kind::SpecViolated { "the held-set spec" } else { "the Lean model" }, d2.expected
+                    ),
+                    correspondence: "corr.C17.input-history (Model.Input.step/readUla vs Emulator::send_*/read_io)".into(),
+                    case: J::obj(vec![("text", J::s(case_text(m128, small)))]),
+                    implementation: d2.implementation.clone(),
+                    expected: d2.expected.clone(),
+                });
             }
         }
     }
